@@ -24,7 +24,7 @@
    resubscribes with recovery; a fresh subscribe (state phase) replaces it.   *)
 EXTENDS Integers, Sequences, FiniteSets, TLC
 
-CONSTANTS Keys, MaxPub, MaxSubs, Filts, Withhold,
+CONSTANTS Keys, MaxPub, MaxSubs, Filts, Withhold, DeltaOpts,
           AsCodedFilter   \* TRUE: delta stays negotiated for a subscription with a tags filter (as coded);
                           \* FALSE (reference): a filtered subscription gets full payloads only
 
@@ -42,11 +42,12 @@ Init ==
 
 Frame(k, off, id, prev, hb, rm) == [k |-> k, off |-> off, id |-> id, delta |-> prev # 0, base |-> prev, hb |-> hb, rm |-> rm]
 
-Publish(k, tag) ==
+\* ud = MapPublishOptions.UseDelta of this publication (only then the broker hands over the key's previous value)
+Publish(k, tag, ud) ==
   /\ npub < MaxPub /\ npub' = npub + 1
   /\ LET id == npub + 1
          off == Len(log) + 1
-         prev == st[k]
+         prev == IF ud THEN st[k] ELSE 0
          withheld == Filtered(tag) /\ (Withhold \/ ~DeltaOn)
      IN /\ st' = [st EXCEPT ![k] = id]
         /\ log' = Append(log, [k |-> k, id |-> id, rm |-> FALSE, tag |-> tag])
@@ -55,7 +56,7 @@ Publish(k, tag) ==
                   /\ cl' = [cl EXCEPT !.held[k] = id, !.pos = off]
              ELSE /\ out' = <<>> /\ UNCHANGED cl      \* a withheld publication does not move the client's position
   /\ UNCHANGED <<filt, live, nsub>>
-  /\ step' = [act |-> "Publish", k |-> k, tag |-> tag, id |-> npub + 1]
+  /\ step' = [act |-> "Publish", k |-> k, tag |-> tag, id |-> npub + 1, ud |-> ud]
 
 \* the removal publication carries the tags of the removed entry
 Remove(k) ==
@@ -117,7 +118,7 @@ Unsub ==
   /\ step' = [act |-> "Unsub"]
 
 Next ==
-  \/ \E k \in Keys, t \in (IF filt THEN {"keep", "drop"} ELSE {"keep"}) : Publish(k, t)
+  \/ \E k \in Keys, t \in (IF filt THEN {"keep", "drop"} ELSE {"keep"}), ud \in DeltaOpts : Publish(k, t, ud)
   \/ \E k \in Keys : Remove(k)
   \/ SubFresh \/ SubRecover \/ Unsub
 
